@@ -1058,6 +1058,16 @@ func c07Scenarios(tier string) []*world.Scenario {
 			out = append(out, ColdSplit("C07", kind, cfg.pw, cfg.replicas, 2))
 		}
 	}
+	// one fragment of a split request is answered with an error line: the merged reply is an error, never a sum / array /
+	// OK computed from it (the scenario and its oracle are C11's, run here as part of the merge rules)
+	for _, kind := range []string{"mget", "del", "mset"} {
+		for _, nodes := range [][]string{{AddrA}, {AddrB}, {AddrA, AddrB}} {
+			sc := c11Scenario(kind, 2, nodes, 0, 2)
+			sc.Name = "C07/fragment-error/" + strings.TrimPrefix(sc.Name, "C11/")
+			sc.Family = "fragment-answered-with-an-error"
+			out = append(out, sc)
+		}
+	}
 	return out
 }
 
